@@ -172,6 +172,7 @@ def run(pid, tier, ev=None, vd=None, finish=True, want_label=None):
             pth = os.path.join(work, f"hist{k // 3000}.ndjson")
             with open(pth, "w") as f:
                 for e in hrecs[k:k + 3000]:
+                    e.setdefault("want_at", [])      # directed scenarios only: [path index, version] that must be at the path at the end
                     f.write(json.dumps({kk: v for kk, v in e.items() if kk not in ("names", "stderr", "seed", "step")}) + "\n")
             hfiles.append((pth, len(hrecs[k:k + 3000]), k))
         for pth, n, off in hfiles:
